@@ -307,4 +307,41 @@ example : ∀ a ∈ ([0,2] : List Int), 0 ≤ a ∧ a < (([2,3,4] : Shape).lengt
 example : (flipView [2,3,4] (some [0,2])).bind (fun v => v.map [0,1,1]) = some [1,1,2] := by decide
 example : InShape [0,1,1] [2,3,4] := by decide
 
+/-- **expand_dims = NumPy** (int or tuple axis, negative entries allowed, result rank ≥ 1): `nax` is NumPy's
+    `normalize_axis_tuple(axis, ndim + len(axis))` (duplicate-free); the result has rank `ndim + len(axis)`, extent 1
+    at every listed position, the source shape once those positions are deleted, and the same C-order elements. -/
+theorem expandDims_eq_spec {α : Type} (a : Arr α) (fill : α) (ax : List Int) (nax : List Nat)
+    (hn : normalizeAxes (a.shape.length + ax.length) ax = some nax) (hnd : nax.Nodup) (ha : Pos a.shape)
+    (hr : 0 < a.shape.length + ax.length) :
+    ∃ v, expandDimsView a.shape ax = some v ∧ v.src = a.shape ∧
+      v.dst.length = a.shape.length + ax.length ∧
+      (∀ k ∈ nax, v.dst[k]? = some 1) ∧
+      dropAxes (fun j => nax.contains j) 0 v.dst = a.shape ∧
+      (v.apply a fill).flat = a.flat ∧ v.InBounds := by
+  have hlen : nax.length = ax.length := mapM_some_length _ _ _ hn
+  have hlt : ∀ k ∈ nax, k < a.shape.length + ax.length := by
+    intro k hk
+    obtain ⟨j, hj, rfl⟩ := List.mem_iff_getElem.1 hk
+    have hj' : j < ax.length := by omega
+    have := (mapM_some_get _ _ _ hn j ax[j] (by simp [hj'])).1
+    rw [List.getElem?_eq_getElem hj] at this
+    exact normalizeAxis_lt _ _ _ this
+  have hcnt := count_free (List.range' 0 (a.shape.length + ax.length)) nax (List.nodup_range')
+    hnd (fun k hk => by simp [List.mem_range']; exact hlt k hk)
+  simp only [List.length_range'] at hcnt
+  obtain ⟨out, h1, h2, h3, h4, h5⟩ := expandGo_spec nax (a.shape.length + ax.length) 0 a.shape (by omega)
+  have hne : out ≠ [] := by intro h; rw [h] at h2; simp at h2; omega
+  obtain ⟨v, hv1, hv2, hv3, hv4, hv5⟩ := reshapeView_nat a fill out hne h5 ha
+  refine ⟨v, ?_, hv2, by rw [hv3, h2], ?_, by rw [hv3]; exact h3, hv4, hv5⟩
+  · simp only [expandDimsView, shapeExpandDims, hn, Option.bind_some, h1, hv1]
+  · intro k hk
+    rw [hv3]
+    have hk' : k < out.length := by rw [h2]; exact hlt k hk
+    have hx := h4 k out[k] (by simp [hk']) (by simp; exact hk)
+    simp [hk', hx]
+
+example : normalizeAxes (([2,3] : Shape).length + ([0,-1] : List Int).length) [0,-1] = some [0,3] ∧ [0,3].Nodup := by decide
+example : (expandDimsView [2,3] [0,-1]).map (·.dst) = some [1,2,3,1] ∧
+    dropAxes (fun j => [0,3].contains j) 0 [1,2,3,1] = [2,3] := by decide
+
 end NmVerif.Props.C03
